@@ -4,6 +4,7 @@ import (
 	"context"
 	"flag"
 	"fmt"
+	"io"
 	"os"
 	"reflect"
 	"strings"
@@ -39,6 +40,7 @@ type c07case struct {
 	Hold   bool   // args: an argument holds a script closure other than a top-level function literal
 	Ts     []*c07t
 	Sent   []*cval
+	Old    *cval // var: the value the variable held when the script was compiled (host variables)
 	Impl   []*cval
 	Ref    []*cval
 	Region string
@@ -94,7 +96,7 @@ func c07exports(extra map[string]reflect.Value) interp.Exports {
 }
 
 func c07new(extra map[string]reflect.Value) *c07run {
-	i := interp.New(interp.Options{})
+	i := interp.New(interp.Options{Stdout: io.Discard, Stderr: io.Discard})
 	r := &c07run{i: i}
 	if err := i.Use(stdlib.Symbols); err != nil {
 		r.failed = "use:" + err.Error()
@@ -217,7 +219,12 @@ func c07equal(a, b []*cval) bool {
 }
 
 // native is the reference observation: the manufactured Go value observed without any boundary.
-func c07native(v *cval, env *c07env) *cval {
+func c07native(v *cval, env *c07env) (res *cval) {
+	defer func() {
+		if recover() != nil {
+			res = v // an observed tree (functions known by their graph only) is its own reference
+		}
+	}()
 	return c07observe(v.T, v.toReflect(env, 0), env)
 }
 
@@ -838,7 +845,9 @@ func runC07(args []string) error {
 	if *tier == "thorough" {
 		nA, nB, nReg = 10000, 8000, 40
 	}
-	root := newRng(*seed)
+	// newRng's seeding makes the streams of seeds k and k+2 shifted copies of each other: mix the seed first
+	root := &rng{s: (*seed + 0x632BE59BD9B4E019) * 0xD1342543DE82EF95}
+	root = root.fork().fork()
 	var jobs []*c07job
 	for k := 0; k < nA; k++ {
 		a := h.genA(root.fork(), "")
@@ -869,8 +878,28 @@ func runC07(args []string) error {
 		if !c07equal(c.Impl, c.Ref) {
 			bad++
 			if *dump {
-				fmt.Printf("---- case %d %s %s region=%q mode=%s shape=%s sig=%s\n  sent: %s\n  impl: %s\n  ref:  %s\n", c.ID, c.Kind, c.Dir, c.Region, c.Mode, c.Shape, c07sigString(c.Sig),
+				sg := ""
+				if c.Sig != nil {
+					sg = c07sigString(c.Sig)
+				} else {
+					sg = c.Ts[0].src()
+				}
+				fmt.Printf("---- case %d %s %s region=%q mode=%s shape=%s sig=%s\n  sent: %s\n  impl: %s\n  ref:  %s\n", c.ID, c.Kind, c.Dir, c.Region, c.Mode, c.Shape, sg,
 					c07valStrings(c.Sent), c07valStrings(c.Impl), c07valStrings(c.Ref))
+				for _, v := range c.Impl {
+					if v.BadMsg != "" {
+						fmt.Printf("  why:  %s\n", v.BadMsg)
+						break
+					}
+				}
+			}
+		}
+	}
+	for _, j := range jobs {
+		for _, m := range j.other {
+			bad++
+			if *dump {
+				fmt.Printf("---- other region=%q kind=%v\n  impl: %q\n  ref:  %q\n", m.Region, m.Input.(map[string]any)["kind"], m.Impl, m.Ref)
 			}
 		}
 	}
